@@ -31,6 +31,12 @@ def fsAfter (fs : FS) (op : Op) : FS := (kernelOp fs ⟨[], 1, 1⟩ op).1
 def contractRemovals (fs : FS) (recursive : Bool) (es : List Ent) : List PEv :=
   es.flatMap (fun e => if watchedDir fs recursive (parentOf e.path) then evDeleted e.isDir e.path else [])
 
+/-- the replaced directory (if it was one of the tree) reports a change of itself -/
+def renameTail (fs : FS) (recursive : Bool) (q : P) : List PEv :=
+  match fs.find? q with
+  | some old => if old.isDir && watchedDir fs recursive q then [mkEv .DirModifiedEvent q] else []
+  | none => []
+
 /-- C03's per-operation contract: the events one operation must produce, and whether the emitter stops -/
 def contract (fs : FS) (recursive full : Bool) (op : Op) : List PEv × Bool :=
   let w := fun (p : P) => watchedDir fs recursive (parentOf p)
@@ -57,9 +63,7 @@ def contract (fs : FS) (recursive full : Bool) (op : Op) : List PEv × Bool :=
     | none => ([], false)
     | some e =>
       let fs1 := fsAfter fs op
-      let tail := match fs.find? q with
-        | some old => if old.isDir && watchedDir fs recursive q then [mkEv .DirModifiedEvent q] else []
-        | none => []
+      let tail := renameTail fs recursive q
       if w p && w q then
         ([mkEv (movedCls e.isDir) p q, dirMod p, dirMod q] ++
          (if e.isDir && recursive then subMoved fs1 p q else []) ++ tail, false)
